@@ -442,6 +442,7 @@ def match_arms(body):
 
 def gen_bounds(repo):
     notes = []
+    notes_wrap = []
     cell = read(repo, 'src/cell.rs')
     site = read(repo, 'src/site.rs')
     L = ['/- GENERATED by tools/pvtx.py from src/cell.rs, src/site.rs, src/state/*.rs — do not edit. -/',
@@ -583,9 +584,9 @@ def gen_bounds(repo):
         if mw:
             per, off = to_bexpr(mw.group(1)), to_bexpr(mw.group(2))
     except Unrecognised as ex:
-        notes.append('positions: %s' % ex)
+        notes_wrap.append('positions: %s' % ex)
     if per is None:
-        notes.append('positions: wrap call not found')
+        notes_wrap.append('positions: wrap call not found')
         per, off = '(.lit 1 1)', '(.neg (.lit 1 2))'
     want = 'lettransform=self.transform();self.symmetries().map(move|sym|sym*transform).map(|sym|sym.periodic(%s))' % norm(mw.group(0)[len('.periodic('):-1] if mw else '')
     if norm(body) != want:
@@ -603,6 +604,7 @@ def gen_bounds(repo):
     L.append('')
     L.append('/-- constructs the translator did not recognise (must be empty) -/')
     L.append('def boundsUnrecognised : List String := [' + ', '.join(lean_str(x) for x in notes) + ']')
+    L.append('def wrapUnrecognised : List String := [' + ', '.join(lean_str(x) for x in notes_wrap) + ']')
     L.append('')
     L.append('end PV.Generated')
     return '\n'.join(L) + '\n'
@@ -611,7 +613,9 @@ def gen_bounds(repo):
 # ----------------------------------------------------------------------------- T2b: state constants
 
 def gen_state(repo):
-    notes = []
+    notes = []      # packed.rs (C01/C02)
+    notes_lj = []   # potential.rs, lj_shape.rs (C03/C13)
+    notes_line = [] # line2.rs (C12)
     changed = []
     packed = read(repo, 'src/state/packed.rs')
     pot = read(repo, 'src/state/potential.rs')
@@ -620,11 +624,11 @@ def gen_state(repo):
     def norm(x):
         return re.sub(r'\s+', '', x or '')
 
-    def bexpr_or(text, default, where):
+    def bexpr_or(text, default, where, sink=None):
         try:
             return to_bexpr(text)
         except Exception as e:
-            notes.append('%s: %s' % (where, e))
+            (notes if sink is None else sink).append('%s: %s' % (where, e))
             return default
 
     L = ['/- GENERATED by tools/pvtx.py from src/state/packed.rs, src/state/potential.rs, src/shape/lj_shape.rs — do not edit. -/',
@@ -661,48 +665,48 @@ def gen_state(repo):
         changed.append('PackedState::score')
 
     # --- initialise factors
-    def init_size(src, where, default):
+    def init_size(src, where, default, sink):
         m = re.search(r'fn\s+initialise\b', src)
         b = fn_body(src, 'initialise') or ''
         mm = re.search(r'let\s+max_cell_size\s*=\s*([^;]+);', b)
         if not mm:
-            notes.append(where + ': max_cell_size not found')
+            sink.append(where + ': max_cell_size not found')
             return default
         if not re.search(r'Cell2::from_family\(\s*wallpaper\.family\s*,\s*max_cell_size\s*\)', b):
-            notes.append(where + ': cell is not from_family(wallpaper.family, max_cell_size)')
+            sink.append(where + ': cell is not from_family(wallpaper.family, max_cell_size)')
         if not re.search(r'isopointal\.iter\(\)\.map\(OccupiedSite::from_wyckoff\)', b):
-            notes.append(where + ': sites are not from_wyckoff')
-        return bexpr_or(mm.group(1), default, where)
+            sink.append(where + ': sites are not from_wyckoff')
+        return bexpr_or(mm.group(1), default, where, sink)
     d4 = '(.mul (.mul (.lit 4 1) (.var "enclosing_radius")) (.var "num_shapes"))'
     d2 = '(.mul (.mul (.lit 2 1) (.var "enclosing_radius")) (.var "num_shapes"))'
     L.append('/-- `initialise`: initial cell length as a function of the enclosing radius and copy count -/')
-    L.append('def packedInitSize : BExpr := ' + init_size(packed, 'PackedState::initialise', d4))
-    L.append('def ljInitSize : BExpr := ' + init_size(pot, 'PotentialState::initialise', d2))
+    L.append('def packedInitSize : BExpr := ' + init_size(packed, 'PackedState::initialise', d4, notes))
+    L.append('def ljInitSize : BExpr := ' + init_size(pot, 'PotentialState::initialise', d2, notes_lj))
 
     # --- PotentialState::score: shells, weight, normalisation
     body = fn_body(pot, 'score') or ''
     ms = re.search(r'\.periodic_images\(\s*position\s*,\s*(-?\d+)\s*,\s*false\s*\)', body)
     shells = 3
     if not ms:
-        notes.append('PotentialState::score: periodic_images(position, <int literal>, false) not found')
+        notes_lj.append('PotentialState::score: periodic_images(position, <int literal>, false) not found')
     else:
         shells = int(ms.group(1))
     sums = re.findall(r'sum\s*\+=\s*([^;]+);', body)
     weight = '(.lit 1 1)'
     if len(sums) != 2 or norm(sums[0]) != 'shape1.energy(&shape2)':
-        notes.append('PotentialState::score: expected two accumulation statements, in-cell unweighted')
+        notes_lj.append('PotentialState::score: expected two accumulation statements, in-cell unweighted')
     else:
         mw = re.match(r'^(.*?)\*\s*shape1\.energy\(&shape2\)$', sums[1].strip())
         if mw:
-            weight = bexpr_or(mw.group(1), weight, 'periodic weight')
+            weight = bexpr_or(mw.group(1), weight, 'periodic weight', notes_lj)
         elif norm(sums[1]) == 'shape1.energy(&shape2)':
             weight = '(.lit 1 1)'
         else:
-            notes.append('PotentialState::score: unrecognised periodic accumulation ' + sums[1].strip())
+            notes_lj.append('PotentialState::score: unrecognised periodic accumulation ' + sums[1].strip())
     if not re.search(r'Some\(\s*-sum\s*/\s*self\.total_shapes\(\)\s+as\s+f64\s*\)', body):
-        notes.append('PotentialState::score: result is not Some(-sum / total_shapes)')
+        notes_lj.append('PotentialState::score: result is not Some(-sum / total_shapes)')
     if not re.search(r'\.skip\(\s*index\s*\+\s*1\s*\)', body):
-        notes.append('PotentialState::score: in-cell loop is not skip(index + 1)')
+        notes_lj.append('PotentialState::score: in-cell loop is not skip(index + 1)')
     L.append('/-- `PotentialState::score`: image shells, weight of a periodic pair -/')
     L.append('def ljShells : Int := %d' % shells)
     L.append('def ljPeriodicWeight : BExpr := ' + weight)
@@ -711,13 +715,13 @@ def gen_state(repo):
     body = fn_body(ljs, 'from_trimer') or ''
     msig = re.search(r'sigma:\s*([^,]+?)\s*\*\s*r\s*,', body)
     mcut = re.search(r'cutoff:\s*Some\(\s*([^)]+)\)', body)
-    sig = bexpr_or(msig.group(1), '(.lit 2 1)', 'trimer sigma') if msig else None
-    cut = bexpr_or(mcut.group(1), '(.lit 7 2)', 'trimer cutoff') if mcut else None
+    sig = bexpr_or(msig.group(1), '(.lit 2 1)', 'trimer sigma', notes_lj) if msig else None
+    cut = bexpr_or(mcut.group(1), '(.lit 7 2)', 'trimer cutoff', notes_lj) if mcut else None
     if sig is None:
-        notes.append('LJShape2::from_trimer: sigma factor not found')
+        notes_lj.append('LJShape2::from_trimer: sigma factor not found')
         sig = '(.lit 2 1)'
     if cut is None:
-        notes.append('LJShape2::from_trimer: cutoff not found')
+        notes_lj.append('LJShape2::from_trimer: cutoff not found')
         cut = '(.lit 7 2)'
     L.append('/-- `LJShape2::from_trimer`: σ = factor · radius, cutoff on every particle -/')
     L.append('def ljTrimerSigmaFactor : BExpr := ' + sig)
@@ -727,21 +731,23 @@ def gen_state(repo):
     mt = re.search(r'const\s+TOLERANCE\s*:\s*f64\s*=\s*([^;]+);', l2)
     tolx = None
     if mt:
-        tolx = bexpr_or(mt.group(1), None, 'Line2::TOLERANCE')
+        tolx = bexpr_or(mt.group(1), None, 'Line2::TOLERANCE', notes_line)
     if tolx is None:
-        notes.append('Line2::TOLERANCE not found')
+        notes_line.append('Line2::TOLERANCE not found')
         tolx = '(.lit 1 1000000000000)'
     ib = fn_body(l2, 'intersects') or ''
     if not re.search(r'u_b\.abs\(\)\s*<=\s*Self::TOLERANCE\s*\*\s*lengths', ib):
-        notes.append('Line2::intersects: parallel test is not |u_b| <= TOLERANCE * lengths')
+        notes_line.append('Line2::intersects: parallel test is not |u_b| <= TOLERANCE * lengths')
     if norm(re.search(r'if(-Self::TOLERANCE<=ua.*?)\{', norm(ib)).group(1) if re.search(r'if(-Self::TOLERANCE<=ua.*?)\{', norm(ib)) else '') != '-Self::TOLERANCE<=ua&&ua<=1.+Self::TOLERANCE&&-Self::TOLERANCE<=ub&&ub<=1.+Self::TOLERANCE':
-        notes.append('Line2::intersects: parameter test is not -TOL <= ua <= 1+TOL && -TOL <= ub <= 1+TOL')
+        notes_line.append('Line2::intersects: parameter test is not -TOL <= ua <= 1+TOL && -TOL <= ub <= 1+TOL')
     L.append('/-- `Line2::TOLERANCE`: relative precision of the segment test -/')
     L.append('def lineTolerance : BExpr := ' + tolx)
     L.append('')
     L.append('def stateHandModelledChanged : List String := [' + ', '.join(lean_str(k) for k in changed) + ']')
-    L.append('/-- constructs the translator did not recognise (must be empty) -/')
+    L.append('/-- constructs the translator did not recognise (must be empty), per source file -/')
     L.append('def stateUnrecognised : List String := [' + ', '.join(lean_str(x) for x in notes) + ']')
+    L.append('def ljUnrecognised : List String := [' + ', '.join(lean_str(x) for x in notes_lj) + ']')
+    L.append('def lineUnrecognised : List String := [' + ', '.join(lean_str(x) for x in notes_line) + ']')
     L.append('')
     L.append('end PV.Generated')
     return '\n'.join(L) + '\n'
